@@ -304,6 +304,13 @@ def step (w : World) (line : String) : World × String :=
         | (w', some id) => (w', toString id)
         | (w', none) => (w', "raise"))
     | none => (w, "bad-op")
+  | ["obsn2", k] =>
+    -- constructed with subscribe=False and, if the constructor let it be, subscribed by hand at once
+    match parseKind k with
+    | some kind => (match w.constructDetached kind with
+        | (w', some id) => (match w'.resubscribe id with | (w'', true) => (w'', toString id) | (w'', false) => (w'', "raise"))
+        | (w', none) => (w', "raise"))
+    | none => (w, "bad-op")
   | ["obs", k, t] =>
     match parseKind k, t.toNat? with
     | some kind, some tag => (match w.construct kind tag with
@@ -832,6 +839,9 @@ def stepAll (d : DW) (line : String) : DW × String :=
   | ["badseq"] => (d, "raise")   -- `Schedule.from_job_sequences` on sequences that admit no schedule: a validation error, nothing else happens
   | ["fork"] => (d, "ok")        -- the scenario goes on with a deep copy of the dispatcher and its observers: same state, other objects
   | ["fork", _] => (d, "ok")
+  | ["fork", _, _] => (d, "ok")
+  | ["efork"] => (d, "ok")       -- … of the environment
+  | ["mfork"] => (d, "ok")
   | ["stamp"] => (d, "ok")       -- the caller writes notes into `Schedule.metadata`: a dictionary of the user's, no part of the state
   | ["xform"] => (d, "ok")       -- instance transformations applied to the instance produce NEW instances: nothing changes here
   | ["disp", j, p, m] =>
@@ -886,6 +896,8 @@ partial def loop (h : IO.FS.Stream) (out : IO.FS.Stream) (d : DW) : IO Unit := d
     -- `sstep j p m`: the request reaches the dispatcher through `DispatchingRuleSolver.step` (a user rule names the operation, a user
     -- machine chooser the machine): for the dispatcher it is the request `disp j p m`
     let l := if l.startsWith "sstep " then "disp " ++ (l.drop 6).toString else l
+    -- `refilt …`: the caller assigns another filter to the live dispatcher: the configuration changes, nothing else
+    let l := if l.startsWith "refilt " then "filter " ++ (l.drop 7).toString else l
     let (d', o) := stepAll d l
     out.putStrLn o
     loop h out d'
